@@ -972,6 +972,19 @@ RAISE_EXCS = ["RuntimeError('C10 injected failure')", "ValueError('C10 injected 
 # with a non-zero multiple of 256 AND the status is 0; probed by the exit-status law only
 EXIT256_CLASS = 'script-exit-code-multiple-of-256'
 EXIT256_EXCS = ["SystemExit(256)", "SystemExit(512)"]
+# open finding C10-options-filenotfounderror-swallowed: build._execute_options catches FileNotFoundError around the whole
+# execution of options.bfg (meant for a missing file), so a FileNotFoundError raised INSIDE options.bfg ends the script
+# silently and the run goes on.  Class: options.bfg raises FileNotFoundError AND the run exits 0 AND wrote the build file
+OPTS_FNF_CLASS = 'options-file-filenotfounderror-swallowed'
+
+
+def exit_law_classes(exc, place, rc, out, written):
+    c = []
+    if exc in EXIT256_EXCS and 'failed with exit status %s' % exc[11:-1] in out and not written:
+        c.append(EXIT256_CLASS)
+    if place == 'options.bfg' and exc.startswith('FileNotFoundError(') and rc == 0 and written:
+        c.append(OPTS_FNF_CLASS)
+    return tuple(c)
 
 
 def exit_law_one(exc):
@@ -994,12 +1007,15 @@ def exit_law_one(exc):
                 with open(path, 'w') as f:
                     f.write(keep + 'raise %s\n' % exc)
                 for cmd in ('regenerate', 'regenerate --lazy', 'configure'):
+                    mk = os.path.join(sc.root, 'b2' if cmd == 'configure' else 'build', 'Makefile')
+                    before = os.stat(mk).st_mtime_ns if os.path.exists(mk) else None
                     if cmd == 'configure':
                         rc, out = project.configure(sc.src, os.path.join(sc.root, 'b2'), extra_args=['--toolchain', tc])
-                        shutil.rmtree(os.path.join(sc.root, 'b2'), ignore_errors=True)
                     else:
                         rc, out = project.run_bfg(cmd.split() + [sc.build], cwd=sc.build)
-                    res.append((cmd, place, rc, out[-300:]))
+                    written = os.path.exists(mk) and os.stat(mk).st_mtime_ns != before
+                    shutil.rmtree(os.path.join(sc.root, 'b2'), ignore_errors=True)
+                    res.append((cmd, place, rc, out[-300:], written))
                 with open(path, 'w') as f:
                     f.write(keep)
         return {'exc': exc, 'runs': res}
@@ -1136,15 +1152,17 @@ def stage_script_raise(rep, rng, thorough):
             rep.fail('cannot run the exit-status law for ' + e, {'obligation': 'oracle:exit_status', 'error': o['error']},
                      found_input=False)
             continue
-        for cmd, place, rc, out in o['runs']:
+        for cmd, place, rc, out, written in o['runs']:
             nlaw += 1
             rep.case('exit-status:%s:%s:%s' % (e, place, cmd), True)
             if rc == 0:
-                if rep.fail('exit status: `bfg9000 %s` of a project whose %s raises %s exits 0 (a failed %s must be visible to '
+                if rep.fail('exit status: `bfg9000 %s` of a project whose %s raises %s exits 0 %s (a failed %s must be visible to '
                             'whoever started it: make touches the stamp / keeps the old build file and never retries)'
-                            % (cmd, place, e, 'configure' if cmd == 'configure' else 'regeneration'),
-                            {'kind': 'exit-status', 'exc': e, 'place': place, 'command': cmd, 'rc': rc, 'output': out},
-                            classes=(EXIT256_CLASS,) if e in EXIT256_EXCS and 'failed with exit status %s' % e[11:-1] in out else ()):
+                            % (cmd, place, e, 'and writes the build file as if nothing had happened' if written else
+                               'without writing the build file', 'configure' if cmd == 'configure' else 'regeneration'),
+                            {'kind': 'exit-status', 'exc': e, 'place': place, 'command': cmd, 'rc': rc, 'output': out,
+                             'build_file_written': written},
+                            classes=exit_law_classes(e, place, rc, out, written)):
                     bad += 1
     rep.stage('oracle:exit_status', runs=nlaw, exception_classes=len(excs))
     for spec, o in zip(specs, outs):
@@ -1353,11 +1371,12 @@ def replay(rep, path):
     select_variant(rep)
     if r.get('kind') == 'exit-status':
         o = exit_law_one(r['exc'])
-        for cmd, place, rc, out in o.get('runs', []):
-            print(cmd, place, rc)
+        for cmd, place, rc, out, written in o.get('runs', []):
+            print(cmd, place, rc, written)
             if rc == 0:
                 rep.fail('exit status: `bfg9000 %s` of a project whose %s raises %s still exits 0' % (cmd, place, r['exc']),
-                         {'kind': 'exit-status', 'exc': r['exc'], 'place': place, 'command': cmd, 'rc': rc, 'output': out})
+                         {'kind': 'exit-status', 'exc': r['exc'], 'place': place, 'command': cmd, 'rc': rc, 'output': out},
+                         classes=exit_law_classes(r['exc'], place, rc, out, written))
         return
     if 'spec' in r and r['spec'].get('script_raise') and 'n' not in r:
         o = raise_one(r['spec'])
